@@ -279,4 +279,273 @@ theorem pPlus_chars {g : Grammar} {e : Expr} {p : Char → Bool} {k : Nat} (hm :
   rw [pStar_chars hm cs rest hall hstop F' (by omega)]
   simp
 
+/-! ### sub-parsers that consume exactly: combinators
+
+`ParsesTo g e inp t rest k`: from fuel `k` on, `e` on `inp` yields the value `t` and leaves `rest`.
+`FailsOn g e inp k`: from fuel `k` on, `e` fails on `inp`.  The lemmas below compose such facts
+along the expression constructors; fuel bounds add up mechanically. -/
+
+def ParsesTo (g : Grammar) (e : Expr) (inp : List Char) (t : Tree) (rest : List Char) (k : Nat) : Prop :=
+  ∀ F, k ≤ F → pExpr g F e inp = .ok t rest
+
+def FailsOn (g : Grammar) (e : Expr) (inp : List Char) (k : Nat) : Prop :=
+  ∀ F, k ≤ F → pExpr g F e inp = .fail
+
+theorem ParsesTo.mono {g e inp t rest k k'} (h : ParsesTo g e inp t rest k) (hk : k ≤ k') : ParsesTo g e inp t rest k' :=
+  fun F hF => h F (Nat.le_trans hk hF)
+
+theorem FailsOn.mono {g e inp k k'} (h : FailsOn g e inp k) (hk : k ≤ k') : FailsOn g e inp k' :=
+  fun F hF => h F (Nat.le_trans hk hF)
+
+section comb
+variable {g : Grammar}
+
+theorem ParsesTo.ref {n e inp t rest k} (hl : g.lookup n = some e) (h : ParsesTo g e inp t rest k) :
+    ParsesTo g (.ref n) inp t rest (k + 1) := by
+  intro F hF
+  obtain ⟨F', rfl⟩ : ∃ F', F = F' + 1 := ⟨F - 1, by omega⟩
+  rw [pExpr_ref, hl]; exact h F' (by omega)
+
+theorem FailsOn.ref {n e inp k} (hl : g.lookup n = some e) (h : FailsOn g e inp k) : FailsOn g (.ref n) inp (k + 1) := by
+  intro F hF
+  obtain ⟨F', rfl⟩ : ∃ F', F = F' + 1 := ⟨F - 1, by omega⟩
+  rw [pExpr_ref, hl]; exact h F' (by omega)
+
+theorem ParsesTo.lab {n e inp t rest k} (h : ParsesTo g e inp t rest k) : ParsesTo g (.lab n e) inp (.lab n t) rest (k + 1) := by
+  intro F hF
+  obtain ⟨F', rfl⟩ : ∃ F', F = F' + 1 := ⟨F - 1, by omega⟩
+  rw [pExpr_lab, h F' (by omega)]
+
+theorem FailsOn.lab {n e inp k} (h : FailsOn g e inp k) : FailsOn g (.lab n e) inp (k + 1) := by
+  intro F hF
+  obtain ⟨F', rfl⟩ : ∃ F', F = F' + 1 := ⟨F - 1, by omega⟩
+  rw [pExpr_lab, h F' (by omega)]
+
+theorem ParsesTo.act {tag e inp t rest k} (h : ParsesTo g e inp t rest k) :
+    ParsesTo g (.act tag e) inp (.act tag (consumed inp rest) t) rest (k + 1) := by
+  intro F hF
+  obtain ⟨F', rfl⟩ : ∃ F', F = F' + 1 := ⟨F - 1, by omega⟩
+  rw [pExpr_act, h F' (by omega)]
+
+theorem FailsOn.act {tag e inp k} (h : FailsOn g e inp k) : FailsOn g (.act tag e) inp (k + 1) := by
+  intro F hF
+  obtain ⟨F', rfl⟩ : ∃ F', F = F' + 1 := ⟨F - 1, by omega⟩
+  rw [pExpr_act, h F' (by omega)]
+
+theorem ParsesTo.opt_some {e inp t rest k} (h : ParsesTo g e inp t rest k) : ParsesTo g (.opt e) inp t rest (k + 1) := by
+  intro F hF
+  obtain ⟨F', rfl⟩ : ∃ F', F = F' + 1 := ⟨F - 1, by omega⟩
+  rw [pExpr_opt, h F' (by omega)]
+
+theorem ParsesTo.opt_none {e inp k} (h : FailsOn g e inp k) : ParsesTo g (.opt e) inp .nil inp (k + 1) := by
+  intro F hF
+  obtain ⟨F', rfl⟩ : ∃ F', F = F' + 1 := ⟨F - 1, by omega⟩
+  rw [pExpr_opt, h F' (by omega)]
+
+theorem ParsesTo.notP {e inp k} (h : FailsOn g e inp k) : ParsesTo g (.notP e) inp .nil inp (k + 1) := by
+  intro F hF
+  obtain ⟨F', rfl⟩ : ∃ F', F = F' + 1 := ⟨F - 1, by omega⟩
+  rw [pExpr_notP, h F' (by omega)]
+
+theorem FailsOn.notP {e inp t rest k} (h : ParsesTo g e inp t rest k) : FailsOn g (.notP e) inp (k + 1) := by
+  intro F hF
+  obtain ⟨F', rfl⟩ : ∃ F', F = F' + 1 := ⟨F - 1, by omega⟩
+  rw [pExpr_notP, h F' (by omega)]
+
+theorem ParsesTo.andP {e inp t rest k} (h : ParsesTo g e inp t rest k) : ParsesTo g (.andP e) inp .nil inp (k + 1) := by
+  intro F hF
+  obtain ⟨F', rfl⟩ : ∃ F', F = F' + 1 := ⟨F - 1, by omega⟩
+  rw [pExpr_andP, h F' (by omega)]
+
+theorem ParsesTo.lit {s ic inp r} (h : matchLit ic s inp = some r) : ParsesTo g (.lit s ic) inp (.text (consumed inp r)) r 1 := by
+  intro F hF
+  obtain ⟨F', rfl⟩ : ∃ F', F = F' + 1 := ⟨F - 1, by omega⟩
+  rw [pExpr_lit, h]
+
+theorem FailsOn.lit {s ic inp} (h : matchLit ic s inp = none) : FailsOn g (.lit s ic) inp 1 := by
+  intro F hF
+  obtain ⟨F', rfl⟩ : ∃ F', F = F' + 1 := ⟨F - 1, by omega⟩
+  rw [pExpr_lit, h]
+
+theorem matchLit_append (s rest : List Char) : matchLit false s (s ++ rest) = some rest := by
+  induction s with
+  | nil => rfl
+  | cons c t ih => simp [matchLit, ih]
+
+/-- A case-sensitive literal at the head of the input. -/
+theorem ParsesTo.lit_append (s rest : List Char) : ParsesTo g (.lit s false) (s ++ rest) (.text s) rest 1 := by
+  have := ParsesTo.lit (g := g) (matchLit_append s rest)
+  rwa [consumed_append] at this
+
+theorem ParsesTo.cls {cs rs inv ic c r} (h : clsMatches cs rs inv ic c = true) :
+    ParsesTo g (.cls cs rs inv ic) (c :: r) (.text [c]) r 1 := by
+  intro F hF
+  obtain ⟨F', rfl⟩ : ∃ F', F = F' + 1 := ⟨F - 1, by omega⟩
+  rw [pExpr_cls]; simp [h]
+
+theorem FailsOn.cls {cs rs inv ic c r} (h : clsMatches cs rs inv ic c = false) : FailsOn g (.cls cs rs inv ic) (c :: r) 1 := by
+  intro F hF
+  obtain ⟨F', rfl⟩ : ∃ F', F = F' + 1 := ⟨F - 1, by omega⟩
+  rw [pExpr_cls]; simp [h]
+
+theorem FailsOn.cls_nil {cs rs inv ic} : FailsOn g (.cls cs rs inv ic) [] 1 := by
+  intro F hF
+  obtain ⟨F', rfl⟩ : ∃ F', F = F' + 1 := ⟨F - 1, by omega⟩
+  rw [pExpr_cls]
+
+theorem ParsesTo.any {c r} : ParsesTo g .any (c :: r) (.text [c]) r 1 := by
+  intro F hF
+  obtain ⟨F', rfl⟩ : ∃ F', F = F' + 1 := ⟨F - 1, by omega⟩
+  rw [pExpr_any]
+
+theorem FailsOn.any_nil : FailsOn g .any [] 1 := by
+  intro F hF
+  obtain ⟨F', rfl⟩ : ∃ F', F = F' + 1 := ⟨F - 1, by omega⟩
+  rw [pExpr_any]
+
+/-- The elements of a sequence parse one after the other (common fuel bound `k`). -/
+def SeqRun (g : Grammar) (k : Nat) : List Expr → List Char → List Tree → List Char → Prop
+  | [], inp, ts, rest => ts = [] ∧ rest = inp
+  | e :: es, inp, ts, rest => ∃ t mid ts', ts = t :: ts' ∧ ParsesTo g e inp t mid k ∧ SeqRun g k es mid ts' rest
+
+theorem SeqRun.pSeq {k} : ∀ {es inp ts rest}, SeqRun g k es inp ts rest → ∀ F, es.length + k + 1 ≤ F → pSeq g F es inp = .ok ts rest := by
+  intro es
+  induction es with
+  | nil =>
+    intro inp ts rest h F hF
+    obtain ⟨F', rfl⟩ : ∃ F', F = F' + 1 := ⟨F - 1, by omega⟩
+    obtain ⟨rfl, rfl⟩ := h
+    rw [pSeq_nil]
+  | cons e es ih =>
+    intro inp ts rest h F hF
+    obtain ⟨F', rfl⟩ : ∃ F', F = F' + 1 := ⟨F - 1, by omega⟩
+    obtain ⟨t, mid, ts', rfl, h1, h2⟩ := h
+    simp only [List.length_cons] at hF
+    simp only [pSeq_cons, h1 F' (by omega), ih h2 F' (by omega)]
+
+theorem ParsesTo.seq {k es inp ts rest} (h : SeqRun g k es inp ts rest) : ParsesTo g (.seq es) inp (.seq ts) rest (es.length + k + 2) := by
+  intro F hF
+  obtain ⟨F', rfl⟩ : ∃ F', F = F' + 1 := ⟨F - 1, by omega⟩
+  rw [pExpr_seq, h.pSeq F' (by omega)]
+
+/-- A sequence fails: some element fails after the earlier ones parsed. -/
+def SeqFail (g : Grammar) (k : Nat) : List Expr → List Char → Prop
+  | [], _ => False
+  | e :: es, inp => FailsOn g e inp k ∨ ∃ t mid, ParsesTo g e inp t mid k ∧ SeqFail g k es mid
+
+theorem SeqFail.pSeq {k} : ∀ {es inp}, SeqFail g k es inp → ∀ F, es.length + k + 1 ≤ F → pSeq g F es inp = .fail := by
+  intro es
+  induction es with
+  | nil => intro inp h; exact h.elim
+  | cons e es ih =>
+    intro inp h F hF
+    obtain ⟨F', rfl⟩ : ∃ F', F = F' + 1 := ⟨F - 1, by omega⟩
+    simp only [List.length_cons] at hF
+    rcases h with h | ⟨t, mid, h1, h2⟩
+    · rw [pSeq_cons, h F' (by omega)]
+    · simp only [pSeq_cons, h1 F' (by omega), ih h2 F' (by omega)]
+
+theorem FailsOn.seq {k es inp} (h : SeqFail g k es inp) : FailsOn g (.seq es) inp (es.length + k + 2) := by
+  intro F hF
+  obtain ⟨F', rfl⟩ : ∃ F', F = F' + 1 := ⟨F - 1, by omega⟩
+  rw [pExpr_seq, h.pSeq F' (by omega)]
+
+/-- Ordered choice: the alternatives before the chosen one fail. -/
+def ChoiceRun (g : Grammar) (k : Nat) : List Expr → List Char → Tree → List Char → Prop
+  | [], _, _, _ => False
+  | e :: es, inp, t, rest => ParsesTo g e inp t rest k ∨ (FailsOn g e inp k ∧ ChoiceRun g k es inp t rest)
+
+theorem ChoiceRun.pChoice {k} : ∀ {es inp t rest}, ChoiceRun g k es inp t rest → ∀ F, es.length + k + 1 ≤ F → pChoice g F es inp = .ok t rest := by
+  intro es
+  induction es with
+  | nil => intro inp t rest h; exact h.elim
+  | cons e es ih =>
+    intro inp t rest h F hF
+    obtain ⟨F', rfl⟩ : ∃ F', F = F' + 1 := ⟨F - 1, by omega⟩
+    simp only [List.length_cons] at hF
+    rcases h with h | ⟨h1, h2⟩
+    · rw [pChoice_cons, h F' (by omega)]
+    · simp only [pChoice_cons, h1 F' (by omega)]; exact ih h2 F' (by omega)
+
+theorem ParsesTo.choice {k es inp t rest} (h : ChoiceRun g k es inp t rest) : ParsesTo g (.choice es) inp t rest (es.length + k + 2) := by
+  intro F hF
+  obtain ⟨F', rfl⟩ : ∃ F', F = F' + 1 := ⟨F - 1, by omega⟩
+  rw [pExpr_choice]; exact h.pChoice F' (by omega)
+
+theorem pChoice_allFail {k} : ∀ {es inp}, (∀ e ∈ es, FailsOn g e inp k) → ∀ F, es.length + k + 1 ≤ F → pChoice g F es inp = .fail := by
+  intro es
+  induction es with
+  | nil =>
+    intro inp _ F hF
+    obtain ⟨F', rfl⟩ : ∃ F', F = F' + 1 := ⟨F - 1, by omega⟩
+    rw [pChoice_nil]
+  | cons e es ih =>
+    intro inp h F hF
+    obtain ⟨F', rfl⟩ : ∃ F', F = F' + 1 := ⟨F - 1, by omega⟩
+    simp only [List.length_cons] at hF
+    simp only [pChoice_cons, h e (by simp) F' (by omega)]
+    exact ih (fun x hx => h x (by simp [hx])) F' (by omega)
+
+theorem FailsOn.choice {k es inp} (h : ∀ e ∈ es, FailsOn g e inp k) : FailsOn g (.choice es) inp (es.length + k + 2) := by
+  intro F hF
+  obtain ⟨F', rfl⟩ : ∃ F', F = F' + 1 := ⟨F - 1, by omega⟩
+  rw [pExpr_choice]; exact pChoice_allFail h F' (by omega)
+
+/-- A repetition: the body parses item after item, then fails on what is left. -/
+inductive StarRun (g : Grammar) (e : Expr) (k : Nat) : List Char → List Tree → List Char → Prop
+  | done {rest} : FailsOn g e rest k → StarRun g e k rest [] rest
+  | step {inp t mid ts rest} : ParsesTo g e inp t mid k → StarRun g e k mid ts rest → StarRun g e k inp (t :: ts) rest
+
+theorem StarRun.pStar {e k inp ts rest} (h : StarRun g e k inp ts rest) : ∀ F, ts.length + k + 1 ≤ F → pStar g F e inp = .ok ts rest := by
+  induction h with
+  | done hf =>
+    intro F hF
+    obtain ⟨F', rfl⟩ : ∃ F', F = F' + 1 := ⟨F - 1, by omega⟩
+    rw [pStar_succ, hf F' (by simp at hF; omega)]
+  | step hp _ ih =>
+    intro F hF
+    obtain ⟨F', rfl⟩ : ∃ F', F = F' + 1 := ⟨F - 1, by omega⟩
+    simp only [List.length_cons] at hF
+    simp only [pStar_succ, hp F' (by omega), ih F' (by omega)]
+
+theorem ParsesTo.star {e k inp ts rest} (h : StarRun g e k inp ts rest) : ParsesTo g (.star e) inp (.seq ts) rest (ts.length + k + 2) := by
+  intro F hF
+  obtain ⟨F', rfl⟩ : ∃ F', F = F' + 1 := ⟨F - 1, by omega⟩
+  rw [pExpr_star, h.pStar F' (by omega)]
+
+theorem ParsesTo.plus {e k inp t mid ts rest} (h1 : ParsesTo g e inp t mid k) (h : StarRun g e k mid ts rest) :
+    ParsesTo g (.plus e) inp (.seq (t :: ts)) rest (ts.length + k + 2) := by
+  intro F hF
+  obtain ⟨F', rfl⟩ : ∃ F', F = F' + 1 := ⟨F - 1, by omega⟩
+  simp only [pExpr_plus, h1 F' (by omega), h.pStar F' (by omega)]
+
+theorem FailsOn.plus {e k inp} (h : FailsOn g e inp k) : FailsOn g (.plus e) inp (k + 1) := by
+  intro F hF
+  obtain ⟨F', rfl⟩ : ∃ F', F = F' + 1 := ⟨F - 1, by omega⟩
+  rw [pExpr_plus, h F' (by omega)]
+
+theorem StarRun.mono {e k k' inp ts rest} (h : StarRun g e k inp ts rest) (hk : k ≤ k') : StarRun g e k' inp ts rest := by
+  induction h with
+  | done hf => exact .done (hf.mono hk)
+  | step hp _ ih => exact .step (hp.mono hk) ih
+
+/-- A repetition of a one-character matcher as a `StarRun`. -/
+theorem StarRun.chars {e : Expr} {p : Char → Bool} {k : Nat} (hm : CharMatcher g e p k) :
+    ∀ (cs rest : List Char), (∀ c ∈ cs, p c = true) → StopsAt p rest →
+      StarRun g e k (cs ++ rest) (cs.map fun c => Tree.text [c]) rest := by
+  intro cs
+  induction cs with
+  | nil =>
+    intro rest _ hstop
+    refine .done (fun F hF => ?_)
+    cases rest with
+    | nil => exact (hm F hF).2
+    | cons c r => simp only [List.nil_append]; rw [(hm F hF).1 c r, hstop c r rfl]; simp
+  | cons c cs ih =>
+    intro rest hall hstop
+    refine .step (t := .text [c]) (mid := cs ++ rest) (fun F hF => ?_) (ih rest (fun x hx => hall x (by simp [hx])) hstop)
+    rw [List.cons_append, (hm F hF).1 c (cs ++ rest), hall c (by simp)]; simp
+
+end comb
+
 end FV.Peg
